@@ -1,6 +1,6 @@
 (* Non-vacuity: concrete, non-trivial values meeting the hypotheses of every theorem. *)
 From Coq Require Import String.
-From V Require Import Common.Base C15.Names C15.Renamer C15.Spec C15.NamesProofs C15.MinifyProofs C15.ResolveProofs C15.ScopeBuild C15.ScopeProg C15.ScopeResolveProofs C15.Harness.
+From V Require Import Common.Base C15.Names C15.Renamer C15.Spec C15.NamesProofs C15.MinifyProofs C15.ResolveProofs C15.ScopeBuild C15.ScopeProg C15.ScopeResolveProofs C15.HoistedProofs C15.Harness.
 
 Example minname_ex : map (NumberToMinifiedName default_minifier) [0; 1; 53; 54; 55; 54 + 54 * 64; 1000000]
   = [[97]; [98]; [36]; [97;97]; [98;97]; [97;97;97]; [67;118;71;100]].
@@ -136,3 +136,7 @@ Example resolution_ex :
   | None => []
   end = [Some 3%nat; Some 0%nat].
 Proof. vm_compute. reflexivity. Qed.
+
+(* the inventory of hoisted import symbols is not empty (the obligation is not vacuous) *)
+Example hoisted_inventory_ex : (3 <= length gen.C15HoistedImportsGen.gen_hoisted_declared)%nat.
+Proof. exact hoisted_declared_nonempty. Qed.
